@@ -27,6 +27,7 @@ import random
 from lib import common, goharness
 from lib.common import Result, Violation, InfraError
 from props import _reftables as rt
+from props import _doublestar as dsq
 
 PKG = "pathpat"
 LIMIT = 1000
@@ -223,17 +224,18 @@ def chunk(lst, n):
 FEATURES = [("dupsep", "//"), ("stars3", "***"), ("dsds", "/**/**"), ("ds-star", "/**/*")]
 
 
-def norm_class(ex):
-    f = []
-    if "//" in ex:
-        f.append("dupsep")
-    if "***" in ex:
-        f.append("stars3")
-    if "/**/**" in ex:
-        f.append("dsds")
-    elif ex.endswith("/**/*") or "/**/*/" in ex:
-        f.append("ds-star")
-    return "+".join(f) or "other"
+def norm_class(ex, var):
+    """Cause of a variant difference: the known normalisation rule(s) of parsePatternVariant at work, named
+    only if the real variant string is exactly what the rules frozen in props/_doublestar.py produce;
+    `unexpected` (other string) and `other` (no recognised rule) are never listed in known_findings.json."""
+    return dsq.variant_cause(ex, var) or "other"
+
+
+def match_class(direction, pattern, diffs):
+    """`<direction>/<cause>` when the port of doublestar's in-place group substitution (props/_doublestar.py)
+    reproduces the real result on every differing path, plain `<direction>` otherwise (never listed as known)."""
+    cause = dsq.match_cause(pattern, [(d[0], d[1]) for d in diffs])
+    return "%s/%s" % (direction, cause) if cause else direction
 
 
 def table_violations(rows, out, totals, limit_tag=""):
@@ -260,7 +262,8 @@ def table_violations(rows, out, totals, limit_tag=""):
                      % (rt.q(r["p"]), r["n"], r["calls"], r["idx_ok"], r["ref_n"] if r["ref_n"] >= 0 else "n/a", LIMIT), replay=r))
         elif k == "match":
             out.append(Violation(
-                key="match[%s]: %s" % (r["dir"], rt.q(r["p"])),
+                key="match[%s]: %s" % (match_class(r["dir"], r["p"], r.get("diffs") or [[r["path"], r["dir"] == "pattern-only"]]),
+                                       rt.q(r["p"])),
                 desc="PathPatternMatches(%s,%s) = %s but %s of its expansions %s matches that path (%d path(s) of the domain differ)"
                      % (rt.q(r["p"]), rt.q(r["path"]), r["dir"] == "pattern-only",
                         "none" if r["dir"] == "pattern-only" else "one", json.dumps(r["ex"]), r["npaths"]), replay=r))
@@ -271,7 +274,7 @@ def table_violations(rows, out, totals, limit_tag=""):
                                      replay=r))
                 continue
             out.append(Violation(
-                key="variant[%s]: %s" % (norm_class(r["ex"]), rt.q(r["ex"])),
+                key="variant[%s]: %s" % (norm_class(r["ex"], r["var"]), rt.q(r["ex"])),
                 desc="expansion %s (of %s) is enumerated as variant %s, and PathPatternMatches(%s,%s) = %s but PathPatternMatches(%s,%s) = %s"
                      % (rt.q(r["ex"]), rt.q(r["p"]), rt.q(r["var"]), rt.q(r["ex"]), rt.q(r["path"]), r["dir"] == "expansion-only",
                         rt.q(r["var"]), rt.q(r["path"]), r["dir"] != "expansion-only"), replay=r))
@@ -517,8 +520,9 @@ def run(ctx):
             else:
                 j = next(i for i, (e, g) in enumerate(zip(b["exp_m"], b["got_m"])) if e != g)
                 d = "pattern-only" if b["got_m"][j] == 1 else ("expansions-only" if b["got_m"][j] == 0 else "error")
+                rdiffs = [(o["spaths"][i], g == 1) for i, (e, g) in enumerate(zip(b["exp_m"], b["got_m"])) if e != g]
                 violations.append(Violation(
-                    key="match[%s]: %s" % (d, rt.q(o["s"])),
+                    key="match[%s]: %s" % (match_class(d, o["s"], rdiffs) if d != "error" else d, rt.q(o["s"])),
                     desc="PathPatternMatches(%s,%s) = %s but RefMatch (some expansion matches) = %s (random case %d, seed %d)"
                          % (rt.q(o["s"]), rt.q(o["spaths"][j]), b["got_m"][j], b["exp_m"][j], b["case"], ctx.seed),
                     replay={"pattern": o["s"], "path": o["spaths"][j], "real": b["got_m"][j], "reference": b["exp_m"][j], "n": o["n"]}))
